@@ -22,8 +22,9 @@ def generate(tier):
     else:
         cfgs = lambda c: list(range(6))  # noqa: E731
         timeout = 240
+    from props import ob_kernel
     return cell_obligations('C03', 'c03_obl', check_call, cells, cfgs,
-                            timeout)
+                            timeout) + ob_kernel.obligations()
 
 
 def run(tier):
